@@ -274,6 +274,8 @@ VALUES = {
     'hook': {'o': 'os.getcwd', 'g': 'os.getpid', 'a': 'os.getppid', 's': 'os.getuid'},
     'bool': {'o': 'True', 'g': 'true', 'a': 'True', 's': 'true'},
     'addr': {'o': '127.0.0.1', 'g': '127.0.0.2', 'a': '127.0.0.3', 's': '127.0.0.4'},
+    # a variable that is defined and empty is defined: a reference to it expands to nothing
+    'empty': {'o': '', 'g': '', 'a': '', 's': ''},
 }
 # (target name, section, option, value kind, embeddings allowed)
 TARGETS = [
@@ -291,6 +293,7 @@ TARGETS = [
     ('socket_port', 'socket', 'port', 'int', 1), ('socket_host', 'socket', 'host', 'addr', 1),
     ('plugin_param', 'plugin', 'parameter1', 'str', 3),
     ('circus_endpoint', 'circus', 'endpoint', 'str', 3), ('circus_check_delay', 'circus', 'check_delay', 'int', 1),
+    ('args_empty', 'watcher', 'args', 'empty', 3), ('free_empty', 'watcher', 'qux', 'empty', 3),
 ]
 TARGET_IDX = dict((t[0], i) for i, t in enumerate(TARGETS))
 
